@@ -211,15 +211,7 @@ func (c *context) getReduceTypeForGeneratedRule(
 		if prod != rule.Prods[0] {
 			return nil
 		}
-		termC := prod.Terms[0]
-		switch termC := termC.(type) {
-		case *lr1.Rule:
-			return c.RuleGoTypes[termC]
-		case *lr1.Terminal:
-			return c.TokenType
-		default:
-			panic("not-reached")
-		}
+		return c.getTermGoType(prod.Terms[0])
 
 	case generatedZeroOrMore, generatedZeroOrMoreF:
 		// a = b c*
@@ -243,17 +235,7 @@ func (c *context) getReduceTypeForGeneratedRule(
 		if prod != rule.Prods[1] {
 			return nil
 		}
-		termC := prod.Terms[0]
-		var typeC gotypes.Type
-		switch termC := termC.(type) {
-		case *lr1.Rule:
-			typeC = c.RuleGoTypes[termC]
-		case *lr1.Terminal:
-			typeC = c.TokenType
-		default:
-			panic("not-reached")
-		}
-		return gotypes.NewSlice(typeC)
+		return gotypes.NewSlice(c.getTermGoType(prod.Terms[0]))
 
 	default:
 		panic("unreachable")
